@@ -2,6 +2,7 @@
 package rules
 
 import (
+	"fmt"
 	"sort"
 	"go/types"
 	"strings"
@@ -19,6 +20,8 @@ type Anchors struct {
 	TreePkg, SyntaxPkg, TypesPkg, MuxPkg, TracePkg *types.Package
 
 	NodeT, TreeT, SegmentT, ContextT, SegTypeT *types.Named
+	// Missing: field roles that could not be resolved on this tree (the field names then hold a sentinel)
+	Missing []string
 
 	// node fields (names)
 	FChildren, FIndexes, FHandlers, FSummary, FParent, FSegment, FRoot, FPattern string
@@ -115,8 +118,10 @@ func Resolve(p *an.Prog) *Anchors {
 				return n
 			}
 		}
-		an.Fatalf("UNRESOLVED anchor: %s field for role %s: candidates %v", owner, role, names)
-		return ""
+		// a role nothing fills (or several fields could): the rules that look for this field find nothing and
+		// report what they then cannot establish; every other rule is unaffected
+		a.Missing = append(a.Missing, fmt.Sprintf("%s field for role %s (candidates %v)", owner, role, names))
+		return "‹unresolved:" + role + "›"
 	}
 	isPtrTo := func(t types.Type, target *types.Named) bool {
 		p, ok := t.(*types.Pointer)
@@ -208,7 +213,9 @@ func Resolve(p *an.Prog) *Anchors {
 			}
 		}
 		if !found {
-			an.Fatalf("UNRESOLVED anchor: Tree field %s", n.name)
+			a.Missing = append(a.Missing, "Tree field "+n.name)
+			*n.dst = "‹unresolved:" + n.name + "›"
+			continue
 		}
 		*n.dst = n.name
 	}
@@ -423,6 +430,9 @@ func (a *Anchors) Kind(name string) string {
 // Describe writes the resolved anchors into a report.
 func (a *Anchors) Describe(r *an.Report) {
 	p := a.P
+	for _, m := range a.Missing {
+		r.Note("unresolved anchor: %s — rules that depend on it find nothing and report what they cannot establish", m)
+	}
 	r.Anchor("nodeType", a.TreePkg.Name()+"."+a.NodeT.Obj().Name()+" ("+p.Pos(a.NodeT.Obj().Pos())+")")
 	r.Anchor("childList", "node."+a.FChildren)
 	r.Anchor("firstByteIndex", "node."+a.FIndexes)
